@@ -25,8 +25,10 @@ var Checks = map[string]func(tier string, seed uint64) int{
 	"C13": C13,
 	"C14": C14,
 	"C15": C15,
+	"C16": C16,
 	"C17": C17,
 	"C19": C19,
+	"C20": C20,
 }
 
 // Generators maps property ids to their case generators (debug aid).
@@ -40,7 +42,9 @@ var Generators = map[string]func(seed uint64, i int) *world.Case{
 	"C12": GenC12,
 	"C13": GenC13,
 	"C14": GenC14,
+	"C16": GenC16,
 	"C19": GenC19,
+	"C20": GenC20,
 }
 
 func jsonUnmarshal(b []byte, v any) error { return json.Unmarshal(b, v) }
